@@ -358,8 +358,8 @@ class Facts:
                 ext[p].append(f['at'])
         return local, ext, indirect
 
-    def reach(self, entries):
-        """Local bodies reachable from `entries`; external leaves and indirect call sites met on the way."""
+    def reach(self, entries, avoid=()):
+        """Local bodies reachable from `entries` (never entering a body listed in `avoid`); external leaves and indirect call sites met on the way."""
         seen = set()
         todo = list(entries)
         ext = collections.defaultdict(set)
@@ -367,7 +367,7 @@ class Facts:
         parent = {}
         while todo:
             k = todo.pop()
-            if k in seen or k not in self.fns:
+            if k in seen or k not in self.fns or k in avoid:
                 continue
             seen.add(k)
             local, e, ind = self.out_edges(k)
